@@ -146,7 +146,7 @@ class SchedSim:
         clock = _ClockShim(self.k)
         R.time = clock
         T.time = clock
-        EB.os = _OsShim(getpid=lambda: 4242)
+        EB.os = _OsShim(getpid=lambda: 3141592)
         if hasattr(EB.counter, "count"):
             del EB.counter.count
 
